@@ -22,6 +22,11 @@ import (
 //	final-prev     the server-final that was valid for the previous, abandoned exchange of this
 //	               connection (the client restarted after an empty challenge); degrades to
 //	               final-other when there is no such exchange
+//	first-iter0    server-first with the right nonce and salt but iteration count 0
+//	final-zerokey  a server-final computed with an all-zero salted password over this exchange's
+//	               messages (what an attacker can compute if the client's key derivation
+//	               degenerates)
+//	final-blank    the server-final "v=" with an empty verifier
 //	final-other    a well-formed server-final computed with another key
 //	final-empty    a server-final computed over empty client state (no salted password, no
 //	               auth message): HMAC(HMAC("", "Server Key"), "")
@@ -50,6 +55,8 @@ type adversary struct {
 	final  string // client-final-without-proof received after the valid server-first
 	// the previous exchange, as far as it got
 	prevBare, prevFirst, prevFinal string
+	iter0First                     string // the i=0 server-first of this exchange, if one was sent
+	lastFinal                      string // the latest client-final-without-proof, whatever preceded it
 }
 
 func newAdversary(a AuthCfg, mech string, s *Session) *adversary {
@@ -83,7 +90,7 @@ func (ad *adversary) classify(resp []byte, has bool) string {
 		if ad.first != "" && ad.final != "" {
 			ad.prevBare, ad.prevFirst, ad.prevFinal = ad.bare, ad.first, ad.final
 		}
-		ad.bare, ad.cn, ad.first, ad.final = "", "", "", ""
+		ad.bare, ad.cn, ad.first, ad.final, ad.iter0First, ad.lastFinal = "", "", "", "", "", ""
 		if len(f) == 3 {
 			ad.bare = f[2]
 			for _, at := range strings.Split(f[2], ",") {
@@ -94,8 +101,11 @@ func (ad *adversary) classify(resp []byte, has bool) string {
 		}
 		return "first"
 	case strings.HasPrefix(s, "c="):
-		if i := strings.LastIndex(s, ",p="); i >= 0 && ad.first != "" {
-			ad.final = s[:i]
+		if i := strings.LastIndex(s, ",p="); i >= 0 {
+			ad.lastFinal = s[:i]
+			if ad.first != "" {
+				ad.final = s[:i]
+			}
 		}
 		return "final"
 	case len(resp) == 0:
@@ -181,6 +191,26 @@ func (ad *adversary) Step(resp []byte, has bool) StepOut {
 			_, _, sk := ScramKeys(ad.h, "some-other-password", ad.a.Salt, ad.iter())
 			msg = "v=" + base64.StdEncoding.EncodeToString(hm(ad.h, sk, []byte(ad.bare+","+ad.first+","+ad.final)))
 		}
+	case "first-iter0":
+		if ad.cn != "" {
+			msg = "r=" + ad.cn + suffix + ",s=" + salt64 + ",i=0"
+			// not a valid server-first (RFC 5802: the count is a positive number); remembered so
+			// that the zero-key signature below is computed over this exchange
+			ad.first, ad.final = "", ""
+			ad.iter0First = msg
+		} else {
+			msg = "r=Zm9yZWlnbg" + suffix + ",s=" + salt64 + ",i=0"
+		}
+	case "final-zerokey":
+		zero := make([]byte, ad.h().Size())
+		sk := hm(ad.h, zero, []byte("Server Key"))
+		first := ad.first
+		if first == "" {
+			first = ad.iter0First
+		}
+		msg = "v=" + base64.StdEncoding.EncodeToString(hm(ad.h, sk, []byte(ad.bare+","+first+","+ad.lastFinal)))
+	case "final-blank":
+		msg = "v="
 	case "final-other":
 		_, _, sk := ScramKeys(ad.h, "some-other-password", ad.a.Salt, ad.iter())
 		msg = "v=" + base64.StdEncoding.EncodeToString(hm(ad.h, sk, []byte(ad.bare+","+ad.first+","+ad.final)))
